@@ -27,7 +27,10 @@ def one(mid):
             return res
         for pid in props:
             t = time.time()
-            rc, o = sh('./check %s --tier quick' % pid, HERE, env=dict(os.environ, VK_REPO=wt))
+            try:
+                rc, o = sh('./check %s --tier quick' % pid, HERE, timeout=2400, env=dict(os.environ, VK_REPO=wt))
+            except subprocess.TimeoutExpired:
+                rc, o = 124, 'CHECKER-TIMEOUT the quick check did not finish within 40 minutes on this change'
             lines = [l for l in o.splitlines() if l.startswith(('VIOLATION', 'DEGRADED', 'UNDECIDED', 'CHECKER', 'OK ', 'VIOLATED', 'KNOWN'))]
             res['checks'][pid] = {'exit': rc, 'wall_s': round(time.time() - t, 1),
                                   'violations': [l[:900] for l in lines if l.startswith('VIOLATION')][:6],
